@@ -182,6 +182,9 @@ def gen_pel(rng, u, nopt=None, creator=None, sev=None, flags=None, fixtures=True
         else:
             while True:
                 sid = rng.choice(UNKNOWN_IDS) if (hostile_ids and rng.random() < 0.5) else bytes([rng.randrange(256), rng.randrange(256)])
+                if hostile_ids and secs and secs[-1].kind == "SRC" and secs[-1].m["callouts"] and rng.random() < 0.6:
+                    # directly behind an SRC with callouts: an unknown section whose id reads like a callout substructure
+                    sid = rng.choice([b"ID", b"PE", b"MR"])
                 if sid.decode("latin-1") not in tables.sectionNames:
                     break
             secs.append(pm.sec_generic(rng, u, sid))
